@@ -82,3 +82,14 @@ PROPS["C12"] = dict(PROPS["C12"],
                     assumptions=LOOP_ASSUME + [
                         "switch reader: little-endian target and 24-byte struct input_event with type/code/value at offsets 16/18/20 (measured by the harness on every run; the check fails if they differ); a device read delivers whole records (on a pipe a short final read is zero-padded by the reader, which the model reproduces)",
                     ])
+
+# ---- second engine of C11: the poll adapter of the real driver under a signal (tools/engines/realloop.py, probe "signal-while-waiting")
+PROPS["C11"] = dict(PROPS["C11"],
+                    engines=["loop", "realloop"],
+                    trusted=LOOP_TRUST + [
+                        "realloop engine, poll-adapter probes (hook remapping_loop::verif::real_driver_poll_once): the C11 theorems count on the driver ANSWERING Interrupted when a handled signal ends epoll_wait early (Loop.v then recomputes the time left to the next repeat: C11_schedule_no_drift); the probe runs RealDriver::register_poll + poll on idle pipes with a 1000 ms time-out, sends SIGUSR1 (handler without SA_RESTART) to the polling thread after 400 ms and requires the answer Interrupted; an adapter that waits again by itself is recognised by the answer TimedOut no earlier than signal time + time-out (three attempts, all must be wrong; an answer TimedOut at about the time-out means the signal missed the wait and counts as no information)",
+                    ],
+                    rule=LOOP_RULE + " || realloop engine (shared with C10): only its poll-adapter probes are observed by C11 (clause C11.real_interrupt); the runs of the real loop over pipes use layouts without Special repeat and are observed by C10/C18",
+                    explanation=PROPS["C11"]["explanation"] +
+                    ". Second engine realloop: the one thing about timing the scripted driver cannot show - what the real mio/epoll adapter answers when a signal interrupts the wait - is probed on the real RealDriver (clause C11.real_interrupt)",
+                    assumptions=LOOP_ASSUME + ["realloop probe: SIGUSR1 is free for the harness process to handle; on a machine so loaded that the signal cannot be delivered during a 1000 ms wait in three attempts the probe gives no information (never a hit)"])
